@@ -1,6 +1,7 @@
 use crate::runner::Monitor;
 
 pub mod c01;
+pub mod c02;
 pub mod c10;
 pub mod c12;
 pub mod c13;
@@ -14,6 +15,7 @@ pub mod c20;
 pub fn by_id(id: &str) -> Option<Box<dyn Monitor>> {
     Some(match id {
         "C01" => Box::new(c01::C01),
+        "C02" => Box::new(c02::C02),
         "C10" => Box::new(c10::C10::new()),
         "C12" => Box::new(c12::C12),
         "C13" => Box::new(c13::C13),
